@@ -71,6 +71,9 @@ func (c *CheckCtx) RunScenario(sc *Scenario, simIndex int) (*Outcome, error) {
 				c.other = map[string]int{}
 			}
 			c.other[v.Key()]++
+			if os.Getenv("VERIF_SHOW_OTHER") != "" {
+				fmt.Fprintf(os.Stderr, "other: sim %d %s variant=%s step=%d: %s\n", simIndex, v.Key(), v.Variant, v.Step, v.Detail)
+			}
 			continue
 		}
 		k := v.Key()
